@@ -913,14 +913,19 @@ class Unifier:
         return objs.get(result)
 
     def apply_adder(self, obj, t: CallOn):
-        r = facts.adder_summary(self.prog, obj["cls"], t.meth)
-        if r is None:
-            return
-        f, appends = r
-        amap = {}
-        for p, a in zip(f.params, t.args):
-            amap[p] = a
-        amap.update(t.kwargs)
+        if t.meth.startswith("__append__:"):
+            # direct append to a container attribute of the object under construction
+            appends = {t.meth.split(":", 1)[1]: [ast.Name(id="__item__", ctx=ast.Load())]}
+            amap = {"__item__": t.args[0]}
+        else:
+            r = facts.adder_summary(self.prog, obj["cls"], t.meth)
+            if r is None:
+                return
+            f, appends = r
+            amap = {}
+            for p, a in zip(f.params, t.args):
+                amap[p] = a
+            amap.update(t.kwargs)
         for attr, vals in appends.items():
             chosen = None
             for v in vals:
